@@ -365,3 +365,78 @@ func H_C20_text_runes() {
 		vC20Check("map key with non-ASCII runes", vJText{M: map[string]string{t: "v"}})
 	}
 }
+
+// ---- thorough tier: longer texts, three-element collections, mixed nesting ----
+
+func H_C20T_texts() {
+	o := vJText{S: vJSONText("S", 3), L: []string{vJSONText("L0", 2), "", vJSONText("L2", 2)}, M: map[string]string{vJSONText("Mk", 2): vJSONText("Mv", 2)}}
+	vC20Check("texts of up to 3 bytes in a field, three slice elements and a map entry", o)
+}
+
+func H_C20T_collections3() {
+	o := vJSlices{IS: []int{vPickInt("a"), vPickInt("b"), vPickInt("c")}, A: [2]bool{vndBool("A0"), vndBool("A1")}}
+	n := vndLen("LS", 3)
+	for i := 0; i < n; i++ {
+		o.LS = append(o.LS, vJLeaf{N: "n", K: i})
+	}
+	m := vndLen("PS", 3)
+	for i := 0; i < m; i++ {
+		if vndBool("PSnil" + vNum(i)) {
+			o.PS = append(o.PS, nil)
+		} else {
+			o.PS = append(o.PS, &vJLeaf{N: "p", K: vPickInt("PSk" + vNum(i))})
+		}
+	}
+	vC20Check("collections of up to three elements", &o)
+}
+
+func H_C20T_maps3() {
+	o := &vJMaps{SI: map[string]int{"a": vPickInt("a"), "b": vPickInt("b"), "c": 3}, IS: map[int]string{1: vJSONText("x", 1), 2: "y", -3: "z"},
+		SL: map[string]vJLeaf{"k": {N: vJSONText("n", 2), K: vPickInt("K")}, "j": {}}, SS: map[string][]int{"k": {1, vPickInt("s")}, "e": {}}}
+	vC20Check("maps of two and three entries", o)
+}
+
+type vJMixed struct {
+	P ***vJLeaf
+	S [][]vJLeaf
+	M map[string]map[string]int
+	F []float64
+	E [0]int
+	A [2][]int
+}
+
+func H_C20T_mixed() {
+	o := &vJMixed{}
+	if vndBool("P") {
+		l := &vJLeaf{N: vJSONText("pn", 1), K: vPickInt("pk")}
+		ll := &l
+		o.P = &ll
+	}
+	switch vndChoice("S", 3) {
+	case 1:
+		o.S = [][]vJLeaf{nil, {}}
+	case 2:
+		o.S = [][]vJLeaf{{{N: "a", K: vPickInt("sk")}}, {{}, {N: vJSONText("sn", 1)}}}
+	}
+	if vndBool("M") {
+		o.M = map[string]map[string]int{"o": {"i": vPickInt("mi")}, "n": nil}
+	}
+	if vndBool("F") {
+		o.F = []float64{0.5, -2, 1e20}
+	}
+	if vndBool("A") {
+		o.A = [2][]int{{vPickInt("a0")}, nil}
+	}
+	vC20Check("mixed nesting", o)
+}
+
+// slices of small unsigned kinds other than uint8 ([]uint8 is outside the claim: the standard encoder renders
+// []byte as a base64 string, the dumper as a list of numbers)
+type vJWords struct {
+	W []uint16
+	X [2]uint32
+}
+
+func H_C20T_word_slices() {
+	vC20Check("slices of uint16 and arrays of uint32", vJWords{W: []uint16{1, 65535, vndUint16("w")}, X: [2]uint32{vndUint32("x"), 4294967295}})
+}
